@@ -81,7 +81,9 @@ func totalsByTiling(v refView, ms []expMember, trailer int64) []int64 {
 // writes from it. restrict (if non-nil) follows only that op path and reports
 // only symptoms of the archive at its end (used for minimisation).
 func explore(wk *worker, base *zipgen.Archive, blob []byte, ex *expect, path []string, restrict []string, emit emitFunc) {
-	atomic.AddInt64(&nArchEval, 1)
+	if restrict == nil {
+		atomic.AddInt64(&nArchEval, 1)
+	}
 	var ss symset
 	near := base
 	if len(path) > 0 {
@@ -112,7 +114,9 @@ func explore(wk *worker, base *zipgen.Archive, blob []byte, ex *expect, path []s
 			var res *opResult
 			var oss symset
 			oss.guard("op-"+op, func() { res = opFuncs[op](&oss, wk.tmp, blob, ex, len(path)+1) })
-			atomic.AddInt64(&nTransitions, 1)
+			if restrict == nil {
+				atomic.AddInt64(&nTransitions, 1)
+			}
 			if res != nil {
 				v, why := consensus(py, res.Out)
 				stage := "op-" + op + "-output"
@@ -156,7 +160,9 @@ func explore(wk *worker, base *zipgen.Archive, blob []byte, ex *expect, path []s
 		}
 	}
 	for _, c := range children {
-		atomic.AddInt64(&nStates, 1)
+		if restrict == nil {
+			atomic.AddInt64(&nStates, 1)
+		}
 		explore(wk, base, c.blob, c.ex, append(append([]string{}, path...), c.op), restrict, emit)
 	}
 }
@@ -237,6 +243,19 @@ func main() {
 		famCounts[f.name] = len(f.archives)
 	}
 
+	if only := os.Getenv("C17_ONLY"); only != "" { // development aid: restrict to named families
+		var keep []zipgen.Archive
+		var keepFam []int
+		for i := range specs {
+			if strings.Contains(","+only+",", ","+fams[famOf[i]].name+",") {
+				keep = append(keep, specs[i])
+				keepFam = append(keepFam, famOf[i])
+			}
+		}
+		specs, famOf = keep, keepFam
+		run.Capped("C17_ONLY=" + only + " (development run, not the full family list)")
+	}
+	enumStart := time.Now()
 	nw := runtime.NumCPU()
 	wch := make(chan *worker, nw)
 	for i := 0; i < nw; i++ {
@@ -314,7 +333,13 @@ func main() {
 		records = append(records, r.records...)
 	}
 	wk := <-wch
+	enumWall := time.Since(enumStart)
+	preAttrEval := atomic.LoadInt64(&nArchEval)
+	attrStart := time.Now()
 	keyed := attribute(wk, specs, records)
+	run.Set("phases", map[string]any{"enumeration_s": enumWall.Seconds(), "attribution_s": time.Since(attrStart).Seconds(),
+		"symptom_records": len(records), "minimisations": nMinimise, "minimisation_probe_runs": nShows})
+	_ = preAttrEval
 	py.stop()
 	cleanup()
 
